@@ -42,12 +42,24 @@ def run_case(R, tmp, case, meas):
     fmt, shape = case["fmt"].rsplit("_", 1)
     obj = samples.build(fmt, int(shape))
     path = os.path.join(tmp, "dest_" + case["fmt"])
-    if os.path.exists(path):
-        os.unlink(path)
+    link = path + ".hardlink"
+    for p in (path, link):
+        if os.path.exists(p):
+            os.unlink(p)
     old = meas[case["fmt"]]["good"] + "\n# previous good copy\n"
-    if case["disk0"] == "Old":
+    if case["failAt"]:
+        # the object has a history: it was written successfully before (to this very path and elsewhere); what is at the
+        # destination when the failing dump starts is NOT what this object wrote
+        R.DUMP["inject"] = None
+        obj.dump(path)
+        obj.dump(path + ".elsewhere")
+        os.unlink(path)
+        os.unlink(path + ".elsewhere")
+    if case["disk0"] in ("Old", "OldLinked"):
         with open(path, "w") as fh:
             fh.write(old)
+        if case["disk0"] == "OldLinked":
+            os.link(path, link)
     R.TRACES.pop("dump", None)
     R.DUMP["inject"] = case["failAt"] or None
     raised = None
@@ -66,6 +78,9 @@ def run_case(R, tmp, case, meas):
     if case["failAt"] == 0:
         if raised is not None or now != meas[case["fmt"]]["good"]:
             fails.append("%s: valid dump did not write the expected file (raised=%r)" % (case["fmt"], raised))
+    elif case["disk0"] == "OldLinked" and (now != old or not os.path.exists(link) or open(link).read() != old):
+        fails.append("%s: dump failed at validation point %d (%s) and the previous (hard-linked) file was %s"
+                     % (case["fmt"], case["failAt"], pt, "deleted" if now is None else "changed"))
     elif case["disk0"] == "Old" and now != old:
         fails.append("%s: dump failed at validation point %d (%s) and the previous file was %s"
                      % (case["fmt"], case["failAt"], pt, "deleted" if now is None else "replaced by %d bytes" % len(now)))
@@ -143,6 +158,9 @@ def run(ctx):
     for j, e in enumerate(suite):
         trs.append({"tid": "t%d" % j, "top": e["top"], "nested": e["nested"], "disk0": e["disk0"], "failAt": e["failAt"], "events": e["events"]})
     ctx.notes["testsuite_dumps"] = len(suite)
+    for t in trs:
+        if t["disk0"] == "OldLinked":
+            t["disk0"] = "Old"
     verdicts = T.validate_batch(ctx, "Trace_Dump", "Trace_Dump.cfg", trs)
     rejected = [t for t in trs if verdicts.get(t["tid"], ("?",))[0] == "REJECT"]
     ctx.notes["dump_traces_validated"] = len(trs)
